@@ -104,7 +104,7 @@ func checkFrame(f *gen.ProgFunc, cl *stack.Call) string {
 	}
 	var want []exp
 	pos := 0
-	recv := gen.ProgParam{Kind: "*T", Words: 1, WantTag: "*T"}
+	recv := gen.ProgParam{Kind: "*" + f.Recv, Words: 1, WantTag: "*" + f.Recv}
 	if f.Method {
 		want = append(want, exp{&recv, 0})
 		pos = 1
@@ -240,7 +240,7 @@ func c19Eval(r *core.Run, c *c19Case) {
 		f := &bp.prog.Funcs[i]
 		n := f.Name
 		if f.Method {
-			n = "(*T)." + n
+			n = "(*" + f.Recv + ")." + n
 		}
 		byName[n] = f
 	}
